@@ -984,3 +984,18 @@ package stats
 //@   loop 1 invariant xdelta > 0 && isfinite(xdelta) && isfinite(hiX) && hiY == dist.CDF(hiX) && ((hiX == 0 && hiY < y) || (isfinite(loX) && loX < hiX && loY == dist.CDF(loX) && loY < y))
 //@   loop 2 invariant xdelta > 0 && isfinite(xdelta) && isfinite(loX) && loY == dist.CDF(loX) && ((loX == 0 && y <= loY) || (isfinite(hiX) && loX < hiX && hiY == dist.CDF(hiX) && y <= hiY))
 //@   assigns nothing
+
+// ---------------------------------------------------------------------
+// series (C12): sum of f(0), f(1), ... until a term no longer changes the sum.
+// Model real: a term changes the sum iff it is non-zero, so the result is the
+// partial sum up to the first vanishing term (termination is not proved).
+
+//@ spec rsumf(f func(float64) float64, n float64) float64 = n <= 0 ? 0 : rsumf(f, n - 1) + f(n - 1)
+
+//@ func series
+//@   model real
+//@   witness wn:float = n @ret1
+//@   ensures [partial-sum] result == rsumf(f, wn) && wn >= 1
+//@   ensures [stopped-at-zero-term] f(wn - 1) == 0
+//@   loop 1 invariant n >= 0 && y == rsumf(f, n) && (n >= 1 ==> yp == rsumf(f, n - 1)) && (n < 1 ==> n == 0 && y == 0 && yp == 1)
+//@   assigns nothing
